@@ -18,7 +18,11 @@ func VerifC14Index() {
 	for _, id := range ids {
 		nodes = append(nodes, verifObj("@id", id, "@type", "http://example.org/C"))
 	}
-	nEntries := v.Choice("entries", 4)
+	maxEntries := 4
+	if v.Deep() {
+		maxEntries = 5 // thorough tier: 0..4 lexical entries
+	}
+	nEntries := v.Choice("entries", maxEntries)
 	var links []any
 	elemOf := make([]int, nEntries)
 	for e := 0; e < nEntries; e++ {
